@@ -279,7 +279,10 @@ def intersection_rules(ctx: Ctx, rule: str) -> None:
     ctx.record(rule, "TABLE", fref, "per node: no match -> untouched; several matches -> ValueError; skipped roots -> untouched; else should_run/should_clean = bound flag",
                not problems and kinds == {"none", "many", "skip", "flag"}, {"paths": len(views), "kinds": sorted(kinds)},
                "" if not problems and kinds == {"none", "many", "skip", "flag"} else (problems[0] if problems else f"rows found {sorted(kinds)}"))
-    m = [s for s in ast.walk(loop) if isinstance(s, ast.Assign) and ast.unparse(s.targets[0]) == "matching_nodes"]
+    from ..canon import inline_locals
+
+    # a call argument named as a local (name_regex = node.setless_form + "$") is that argument
+    m = [s for s in ast.walk(inline_locals(loop, keep={"matching_nodes"})) if isinstance(s, ast.Assign) and ast.unparse(s.targets[0]) == "matching_nodes"]
     okm = len(m) == 1 and ast.unparse(m[0].value) == f"graph.get_nodes(param_key='name', param_val={nd}.setless_form + '$')"
     ctx.record(rule + "m", "PROV", fref, "nodes are mapped into the other graph by their set-invariant name anchored at the end", okm, {}, "" if okm else "the node mapping of flag_intersection changed")
 
